@@ -188,8 +188,11 @@ impl MaxCharsCommandSizeLimiter {
         const POINTER_SIZE: usize = std::mem::size_of::<*const u8>();
         const MAX_SINGLE_ARG: usize = 32 * 4096;
         // The kernel also charges the file name it is asked to execute (the
-        // command as resolved through PATH, up to PATH_MAX bytes).
-        const FILE_NAME_MAX: usize = 4096;
+        // command as resolved through PATH, up to PATH_MAX bytes) - and for a
+        // "#!" script it pushes that name a second time, together with the
+        // interpreter and its argument (one line of at most 256 bytes), in
+        // place of argv[0].
+        const FILE_NAME_MAX: usize = 2 * 4096 + 256;
         let env_size: usize = env
             .iter()
             .map(|(var, value)| {
